@@ -1,0 +1,10 @@
+//go:build verif
+
+package utils
+
+// Hook for the out-of-tree verification harness (build tag verif). Add-only.
+
+// VerifBytes returns a copy of the bytes an IncomingTransfer has accumulated so far.
+func (t *IncomingTransfer) VerifBytes() []byte {
+	return append([]byte(nil), t.buf.Bytes()...)
+}
